@@ -19,12 +19,17 @@ impl<'gc> Trace<'gc> for Rec {
     fn trace_gc_weak(&mut self, gc: GcWeak<'gc, ()>) { self.w[self.nw] = GcWeak::as_ptr(gc) as usize; self.nw += 1; }
 }
 pub(crate) fn a<'gc, T: ?Sized>(g: Gc<'gc, T>) -> usize { Gc::as_ptr(g) as *const u8 as usize }
-fn seq(r: &Rec, strong: &[usize], weak: &[usize]) -> bool {
+/// occurrences of x among the first n entries of xs
+fn occ(xs: &[usize], n: usize, x: usize) -> usize { let mut c = 0; let mut j = 0; while j < n { if xs[j] == x { c += 1; } j += 1; } c }
+/// The recorded reports are exactly the expected pointers, each with its strength and as often as it is held.  ORDER IS NOT COMPARED: C15 / C16
+/// ask that every contained pointer is reported, not in which order a container is walked.
+pub(crate) fn same(r: &Rec, strong: &[usize], weak: &[usize]) -> bool {
     if r.ns != strong.len() || r.nw != weak.len() { return false; }
-    let mut i = 0; while i < strong.len() { if r.s[i] != strong[i] { return false; } i += 1; }
-    let mut i = 0; while i < weak.len() { if r.w[i] != weak[i] { return false; } i += 1; }
+    let mut i = 0; while i < strong.len() { if occ(&r.s, r.ns, strong[i]) != occ(strong, strong.len(), strong[i]) { return false; } i += 1; }
+    let mut i = 0; while i < weak.len() { if occ(&r.w, r.nw, weak[i]) != occ(weak, weak.len(), weak[i]) { return false; } i += 1; }
     true
 }
+fn seq(r: &Rec, strong: &[usize], weak: &[usize]) -> bool { same(r, strong, weak) }
 /// same multiset of strong pointers (order free), for containers without a defined iteration order
 fn bag(r: &Rec, strong: &[usize]) -> bool {
     if r.ns != strong.len() || r.nw != 0 { return false; }
